@@ -78,6 +78,11 @@ func renderAll(v any) string {
 	return ""
 }
 
+var c08OperatorForms = []string{"$a + $b", "$a - $b", "$a * $b", "$a / $b", "$a % $b", "$a == $b", "$a < $b", "$a | .[$b]", "$a | .[$b:$c]", "$a | .[$b] = $c", "$a | del(.[$b])", "$a | .[]", "$a | ..", "$a | tojson",
+	"{($a): $b}", "$a | .[$b] |= $c", "$a | .[$b] += $c", "[$a[]?]", "$a | paths", "$a | tostream", "$a // $b", "$a as [$x] | $x", "$a as {a: $x} | $x", "-$a", "$a | map_values($b)", "$a | with_entries(.)", "$a | .a.b = $b",
+	"$a | .[0][0] = $b", "$a | setpath([$b]; $c)", "$a | delpaths([[$b]])", "$a | getpath([$b, $c])", "[$a, $b] | add", "[$a, $b, $c] | add", "[$a, $b] | sort", "[$a, $b] | unique", "[$a, $b] | group_by(.)", "$a | has($b)?", "$a | contains($b)?",
+	"$a | to_entries", "[$a, $b] | transpose?", "$a | .. |= .", "$a | walk(.)", "$a | [paths(type == \"number\")]", "$a | del(..)", "$a | .[$b]?", "$a | .[$b:]?", "$a | .[:$b] = $c", "$a | pick(.[$b]?)", "$a | @json, @text, @html?, @csv?, @sh?", "$a | tostring", "[$a, $b] | flatten", "$a | .a += $b", "$a | .a //= $b"}
+
 func c08ValueUniverse() []any {
 	return []any{
 		nil, false, true, 0, -1, 1 << 62, math.MinInt64, 0.5, math.NaN(), math.Inf(1), math.Inf(-1), math.Copysign(0, -1), 1e308, 5e-324,
@@ -88,6 +93,9 @@ func c08ValueUniverse() []any {
 		[]any{map[string]any{"start": 0, "end": 1}}, []any{map[string]any{"key": nil, "value": 1}}, []any{[]any{"a"}, 1}, []any{[]any{0}, 1},
 		map[string]any{}, map[string]any{"a": 1}, map[string]any{"a": map[string]any{"b": []any{1}}}, map[string]any{"\xff": 1, "": 2}, map[string]any{"key": "k", "value": 1},
 		map[string]any{"start": 1, "end": nil}, map[string]any{"a": math.NaN()},
+		// containers whose Go value is nil (what a caller gets from `var m map[string]any`): an empty object / array
+		map[string]any(nil), []any(nil), []any{map[string]any(nil), map[string]any{"a": 1}}, []any{[]any(nil), []any{1}}, map[string]any{"a": map[string]any(nil), "b": []any(nil)},
+		[]any{map[string]any{"a": 1}, map[string]any(nil)}, []any{nil, map[string]any(nil), map[string]any{"b": 2}},
 	}
 }
 
@@ -223,6 +231,41 @@ func c08Run(c *engine.Ctx) {
 			c.DistinctN(int64(len(args)))
 		}
 	}
+	// operators and indexing syntax (not listed by `builtins`) over every ordered pair of the universe
+	c.Sub("operator-grid")
+	{
+		var codes []*gojq.Code
+		for _, src := range c08OperatorForms {
+			code, err := compileVars("["+src+"] | length", "$a", "$b", "$c")
+			if err != nil {
+				panic(src + ": " + err.Error())
+			}
+			codes = append(codes, code)
+		}
+		oi := 0
+		for ai, a := range U {
+			for bj, b := range U {
+				oi++
+				if !c.MineIdx(oi) || c.Expired() {
+					continue
+				}
+				av := []any{a, b, U[(ai*5+bj*3)%len(U)]}
+				for fi, code := range codes {
+					key := fmt.Sprintf("%s a=%s b=%s c=%s", c08OperatorForms[fi], univ.Repr(av[0]), univ.Repr(av[1]), univ.Repr(av[2]))
+					if !c.Guard(key) {
+						continue
+					}
+					c.Eval()
+					if p := c08Call(code, nil, av); p != "" {
+						c.Violation(key, "crash", map[string]any{"src": c08OperatorForms[fi], "input": nil, "args": univ.ToTagged(av), "why": p})
+					}
+					c.Unguard()
+				}
+				c.DistinctN(1)
+			}
+		}
+		c.Sample(map[string]any{"form": "$a | .[$b] = $c", "a": "a nil map[string]any", "pairs": len(U) * len(U), "forms": len(c08OperatorForms)})
+	}
 	c.Count("seconds:builtin-grid", int64(time.Since(t0).Seconds()))
 	t0 = time.Now()
 	c.Sample(map[string]any{"builtin": "ltrimstr/1", "input": "f64(NaN)", "arg": "jn(1e1000)"})
@@ -344,6 +387,9 @@ func c08Run(c *engine.Ctx) {
 		}
 	}
 	c.Sample(map[string]any{"family": "1 as $v1 | ... | k as $vk | $v1 + $vk", "k": "1..140 (thorough 600)"})
+
+	// (b3) module loaders of every method set, and module files of every directive shape
+	c08RunModules(c)
 
 	// (c) the command: every argument sequence up to length 3 over a token alphabet x stdin texts
 	c.Sub("cli-arguments")
@@ -598,6 +644,13 @@ func c08Replay(v *engine.Violation) (bool, string) {
 	case "path-lists":
 		p := c08Exercise(d["query"].(string), []any{univ.J(`[[1,2]]`), univ.J(`{"a":[1,{"b":2}]}`), nil, univ.J(`[1,[2,[3]]]`), univ.J(`{"a":{"b":{"c":1}}}`)})
 		return p != "", p
+	case "module-loaders":
+		p := c08WithLoader(d["query"].(string), c08Loaders()[d["loader"].(string)])
+		return p != "", p
+	case "module-files":
+		defer CleanupWorkDir()
+		p := c08WithModuleFile(c08ModuleDir(), d["module"].(string), d["query"].(string))
+		return p != "", p
 	case "update-overlaps":
 		p := c08Exercise(d["query"].(string), []any{univ.J(`{"a":{"b":1,"c":[1,2,3]},"b":2}`), univ.J(`{"a":{"c":[]}}`), nil, univ.J(`[1,2,3]`), univ.J(`[[1],[2],[3],[4]]`), univ.J(`[]`), univ.J(`[[[0]]]`), univ.J(`[[[0],[1]],[[2],3]]`), univ.J(`{"a":[[0]]}`)})
 		return p != "", p
@@ -605,7 +658,7 @@ func c08Replay(v *engine.Violation) (bool, string) {
 		inputs := []any{nil, univ.J(`[1,[2,"a"],{"a":null}]`), univ.J(`{"a":[1,2],"b":"x"}`)}
 		p := c08Exercise(d["query"].(string), inputs)
 		return p != "", p
-	case "builtin-grid":
+	case "builtin-grid", "operator-grid":
 		code, err := compileVars("["+d["src"].(string)+"] | length", "$a", "$b", "$c")
 		if err != nil {
 			return false, "does not compile"
